@@ -170,6 +170,23 @@ VoleOK(e) ==
   ELSE /\ e.nC = e.L /\ e.nD = e.L /\ Len(e.sumOK) = e.L /\ Len(e.inputs) = e.L
        /\ \A i \in 1..e.L : e.sumOK[i]                                  \* c_i + d_i = a_i * b (mod the group order)
 
+\* ---------------------------------------------------------------- one deviating cosigner, Boldyreva BLS (C04)
+\* The deviator's partial signature was altered in something the aggregator binds to the deviator's partial public keys (a component,
+\* two components by offsets cancelling in their plain sum, the order of two different components, components signed for another
+\* message, the number of components, a proof of possession, another cosigner's partial signature). The aggregator (an honest party)
+\* must catch it: no panic, no output; whoever it blames is the deviator; and - whatever a single party sends - an output, if one
+\* were produced, must verify.
+BlsDevKinds == {"comp0+D", "compLast+D", "cancel:+D,-D", "swap01", "otherMessage", "otherMessage:comp0", "truncate", "extend",
+                "pop0+D", "pop:cancel:+D,-D", "pop:isMessageSignature", "replay:peer"}
+BlsDevOK(e) ==
+  /\ e.kind \in BlsDevKinds
+  /\ e.dev \in QuorumOf(e) /\ e.agg \in QuorumOf(e) /\ (Len(e.quorum) > 1 => e.agg # e.dev)
+  /\ Qualified(e.pol, QuorumOf(e))
+  /\ ~e.panic                                              \* no honest party crashes
+  /\ e.ok => e.verifies                                    \* never a signature that fails public verification
+  /\ ~e.ok                                                 \* the bound alteration is caught by the aggregator
+  /\ \A i \in 1..Len(e.blamed) : e.blamed[i] = e.dev       \* and only the deviator is blamed
+
 \* ----------------------------------------------------------------
 Check(e) ==
   CASE e.a = "hdr" -> TRUE
@@ -177,6 +194,7 @@ Check(e) ==
     [] e.a = "keygen" -> KeygenOK(e)
     [] e.a = "ot" -> OtOK(e)
     [] e.a = "vole" -> VoleOK(e)
+    [] e.a = "blsdev" -> BlsDevOK(e)
     [] OTHER -> FALSE
 CaseOK == l <= Len(Trace) => Check(Trace[l])
 =============================================================================
